@@ -480,6 +480,9 @@ LINK_CONSUMERS = ['executable', 'shared_library', 'static_library', 'shared_modu
 LINK_RELATIONS = ['link_with', 'link_whole', 'dependency', 'dependency-whole', 'objects', 'transitive']
 
 
+LINK_LANGS = [(a, b, c) for a in 'cf' for b in 'cf' for c in 'cf']       # language of (provider, middle library, consumer): C / Fortran
+
+
 def linkkinds_cases(thorough):
     combos = [(l, d) for l in ('mirror', 'flat') for d in ('shared', 'static', 'both')]
     out = []
@@ -488,7 +491,13 @@ def linkkinds_cases(thorough):
             for ri, r in enumerate(LINK_RELATIONS):
                 for ci, c in enumerate(combos):
                     if thorough or (pi + qi + ri) % len(combos) == ci:
-                        out.append((p, q, r, c))
+                        # languages: all-C always; thorough every assignment, quick one more (rotating) - Fortran targets bring the
+                        # dependency-scanner statements (depscan / depaccumulate) whose inputs come from the linked targets
+                        langs = LINK_LANGS if thorough else [LINK_LANGS[0], LINK_LANGS[1 + (pi * 7 + qi * 3 + ri) % 7]]
+                        for lg in langs:
+                            if r != 'transitive' and lg[1] == 'f':
+                                continue                      # no middle library in this relation
+                            out.append((p, q, r, c, lg))
     return out
 
 
@@ -497,20 +506,24 @@ def run_linkkinds(job):
     produced by a statement whatever the two kinds are.  meson may refuse a combination (link_whole of a shared library): that is a
     rejection, not a violation."""
     from verif import mesonproc as mp
-    idx, p, q, r, (layout, deflib) = job
+    idx, p, q, r, (layout, deflib), lg = job
     root = os.path.join(scratch_root(), 'c04k.%d' % os.getpid())
     shutil.rmtree(root, ignore_errors=True)
     files = {'p.c': 'int pf(void) { return 1; }\n', 'mid.c': 'int pf(void); int mid(void) { return pf(); }\n',
-             'q.c': 'int pf(void); int main(void) { return pf() - 1; }\n'}
-    L = ["project('lk', 'c')", "subdir('prov')"]
-    P = ["p = %s('prov lib', '../p.c')" % p]
+             'q.c': 'int pf(void); int main(void) { return pf() - 1; }\n',
+             'p.f90': 'function pf() result(r)\n  integer :: r\n  r = 1\nend function pf\n',
+             'mid.f90': 'function mid() result(r)\n  integer :: r\n  r = 2\nend function mid\n',
+             'q.f90': 'program q\n  print *, 1\nend program q\n'}
+    ext = {'c': '.c', 'f': '.f90'}
+    L = ["project('lk', 'c'%s)" % (", 'fortran'" if 'f' in lg else ''), "subdir('prov')"]
+    P = ["p = %s('prov lib', '../p%s')" % (p, ext[lg[0]])]
     how = {'link_with': 'link_with: p', 'link_whole': 'link_whole: p', 'dependency': 'dependencies: declare_dependency(link_with: p)',
            'dependency-whole': 'dependencies: declare_dependency(link_whole: p)', 'objects': 'objects: p.extract_all_objects(recursive: true)',
            'transitive': 'link_with: mid'}[r]
     if r == 'transitive':
-        P.append("mid = static_library('mid', '../mid.c', link_with: p)")
-    L.append("c = %s('cons', 'q.c', %s)" % (q, how))
-    L.append("test('runs', c)" if q == 'executable' else "executable('user', 'q.c', link_with: c)")
+        P.append("mid = static_library('mid', '../mid%s', link_with: p)" % ext[lg[1]])
+    L.append("c = %s('cons', 'q%s', %s)" % (q, ext[lg[2]], how))
+    L.append("test('runs', c)" if q == 'executable' else "executable('user', 'q%s', link_with: c)" % ext[lg[2]])
     files['meson.build'] = '\n'.join(L) + '\n'
     files['prov/meson.build'] = '\n'.join(P) + '\n'
     mp.write_tree(root, files)
@@ -518,7 +531,7 @@ def run_linkkinds(job):
     res = mp.run_meson(['setup', 'b'] + args, root)
     outcome, v, st = judge_setup(res, os.path.join(root, 'b'))
     shutil.rmtree(root, ignore_errors=True)
-    return ('linkkinds', '%s <-%s- %s [%s %s]' % (q, r, p, layout, deflib), outcome, v, st, {'files': files, 'args': args})
+    return ('linkkinds', '%s <-%s- %s [%s %s, languages %s]' % (q, r, p, layout, deflib, '/'.join(lg)), outcome, v, st, {'files': files, 'args': args})
 
 
 # ---- things placed with build_subdir:, consumed in every position ----------------------------------------------------------
@@ -768,8 +781,8 @@ def main():
             jobs.append(('bsubdir', idx, p, c, layout, place))
             idx += 1
     if ck.want('linkkinds'):
-        for p, q, r, c in linkkinds_cases(ck.thorough):
-            jobs.append(('linkkinds', idx, p, q, r, c))
+        for p, q, r, c, lg in linkkinds_cases(ck.thorough):
+            jobs.append(('linkkinds', idx, p, q, r, c, lg))
             idx += 1
     if ck.want('genshare'):
         for seq in genshare_cases():
